@@ -3,7 +3,7 @@
 // Contracts for deductive verification (read by /verif/govc). Comment-only: this file adds no code.
 package keeper
 
-//@ store Metadata kv=model/Metadata/value/ key=model_MetadataKey val=github.com/SaoNetwork/sao/x/model/types.Metadata
+//@ store Metadata kv=model/Metadata/value/ key=model_MetadataKey val=github.com/SaoNetwork/sao/x/model/types.Metadata keyfield=DataId
 //@ accessor get (Keeper) GetMetadata Metadata(dataId)
 //@ accessor set (Keeper) SetMetadata Metadata(metadata.DataId) metadata
 //@ accessor del (Keeper) RemoveMetadata Metadata(dataId)
@@ -11,7 +11,7 @@ package keeper
 //@ accessor get (Keeper) GetModel Model(key)
 //@ accessor set (Keeper) SetModel Model(model.Key) model
 //@ accessor del (Keeper) RemoveModel Model(key)
-//@ store ExpiredData kv=model/ExpiredData/value/ key=model_ExpiredDataKey val=github.com/SaoNetwork/sao/x/model/types.ExpiredData
+//@ store ExpiredData kv=model/ExpiredData/value/ key=model_ExpiredDataKey val=github.com/SaoNetwork/sao/x/model/types.ExpiredData keyfield=Height
 //@ accessor get (Keeper) GetExpiredData ExpiredData(height)
 //@ accessor set (Keeper) SetExpiredData ExpiredData(expiredData.Height) expiredData
 //@ accessor del (Keeper) RemoveExpiredData ExpiredData(height)
